@@ -825,6 +825,10 @@ class Lower:
             x = x.replace('$this', objp)
         for i, a in enumerate(argl):
             x = x.replace('$%d' % i, a)
+        if st.get('throws_void'):         # an expression stub without result that may raise: evaluated as a statement, followed by the exception exit
+            self.pre.append(x + ';')
+            self.pre.append('@EXC@')
+            return '((void)0)'
         if st.get('stmt_result'):         # the template is a statement that leaves its result in $RES
             if self.cur_spec.get('hoist_all') and self.loop_depth:
                 raise Abort('statement stub in a loop of a hoist_all function (%s)' % self.cur_fn)
@@ -1365,6 +1369,12 @@ class Lower:
             self.scopes.append([])
             s = ln + pad + '{\n' + self.S(rng, ind + 1) + self.S(beg, ind + 1) + self.S(end, ind + 1)
             lc = self.loopc(ind + 1)
+            # the compiler's names of a range-for's hidden variables depend on the nesting depth (__begin2, __begin3, ...): loop contracts
+            # may name them $BEGIN / $END / $RANGE
+            def _vname(ds):
+                vs = [c for c in self.inner(ds) if c.get('kind') == 'VarDecl']
+                return self.rename.get(vs[0].get('id'), vs[0].get('name')) if vs else '?'
+            lc = lc.replace('$BEGIN', _vname(beg)).replace('$END', _vname(end)).replace('$RANGE', _vname(rng))
             c = self.cond(cnd, 'loop')
             i = self.cond(inc, 'loop')
             self.loop_depth.append(len(self.scopes))
